@@ -544,7 +544,9 @@ func NewC16World(def *CorpusDef) *C16World {
 // Consume serves the faulty bytes the ways a host consumes a stored definition.
 func (cw *C16World) Consume(faulty []byte, invariants bool) (out DefOutcome) {
 	if invariants {
-		if p := guarded(func() { out.Invariant, out.InvariantDetail = MigrationInvariants(faulty, func() { cw.Seams.UUIDs.Counter = 0 }) }); p != "" {
+		if p := guarded(func() {
+			out.Invariant, out.InvariantDetail = MigrationInvariants(faulty, func() { cw.Seams.UUIDs.Counter = 0 })
+		}); p != "" {
 			// the consumers below meet the same panic and name it properly; this is the fallback
 			defer func() {
 				if out.Panic == "" {
